@@ -13,8 +13,9 @@ package main
 // confirmed natively with the Go race detector (`go test -race` build of the
 // replay binary); an unconfirmed candidate is dropped (modelled
 // happens-before edges may be missing), a confirmed one is the violation
-// `data-race`.  Bulk copies (copy/append) and whole-value stores over an
-// existing struct are not tracked: races there are missed, never invented.
+// `data-race`.  copy and append are tracked element by element; whole-value
+// stores over an existing struct or array are tracked as one cell only (a race
+// with an access to a single field of it is missed, never invented).
 
 import (
 	"fmt"
